@@ -81,7 +81,7 @@ func gRun(r *engine.Run, mode string) int {
 	r.Bounds["alphabet"] = gOps
 	r.Bounds["entries_per_node"] = epns
 	r.Assumptions = []string{"version creation time = logical clock at the opening of the committing connection", "second resolution cutoffs (what the SQL function accepts)", "where the statement is silent (successor created exactly at the cutoff, successors on both sides) either outcome is accepted"}
-	if r.Thorough() {
+	if r.Thorough() && mode != "c09" {
 		r.SetBudget(45 * 60 * 1e9)
 	}
 	var cases []json.RawMessage
@@ -123,13 +123,38 @@ func gRun(r *engine.Run, mode string) int {
 		}
 	}
 	n := 0
-	r.MapBudget("vacuum", cases, func(i int, c json.RawMessage, res *engine.Result) {
+	collect := func(i int, c json.RawMessage, res *engine.Result) {
 		r.Add("vacuum", c, res)
 		n++
 		if n%31 == 1 && res.Data != nil {
 			r.Sample(json.RawMessage(res.Data))
 		}
-	})
+	}
+	if mode == "c09" && r.Thorough() {
+		// Phase A: the whole sequence x cutoff space with the fault pass after the latest cutoff only; this
+		// completes. Phase B: the same cases with the fault pass after EVERY cutoff whose vacuum deletes something,
+		// shallow cases first, as far as the budget goes (it multiplies the work by the number of requests of
+		// every vacuum); what it does not reach is reported, the fault-free oracles are complete either way.
+		var phaseA []json.RawMessage
+		for _, c := range cases {
+			var gc gCase
+			must(json.Unmarshal(c, &gc))
+			gc.Faults = 1
+			phaseA = append(phaseA, engine.J(gc))
+		}
+		engine.Map("vacuum", phaseA, collect)
+		r.Extra["phase_A_complete"] = "all sequences x all cutoffs, fault pass after the latest cutoff"
+		r.SetBudgetFromNow(30 * 60 * 1e9)
+		sort.SliceStable(cases, func(i, j int) bool {
+			var a, b gCase
+			json.Unmarshal(cases[i], &a)
+			json.Unmarshal(cases[j], &b)
+			return a.Depth < b.Depth
+		})
+		r.MapBudget("vacuum", cases, collect)
+		return r.Vacuity(2, 50)
+	}
+	r.MapBudget("vacuum", cases, collect)
 	return r.Vacuity(2, 50)
 }
 
